@@ -19,6 +19,8 @@ pub fn free_port() -> u16 {
 	TcpListener::bind(("127.0.0.1", 0)).and_then(|l| l.local_addr()).map(|a| a.port()).unwrap_or(50999)
 }
 
+static VERBOSE: std::sync::atomic::AtomicBool = std::sync::atomic::AtomicBool::new(false);
+
 pub struct Server {
 	pub port: u16,
 	child: Child,
@@ -30,6 +32,13 @@ impl Server {
 	pub fn start(args: &[String], cwd: &Path) -> Result<Server, String> {
 		Self::start_in(args, cwd, cwd)
 	}
+	/// like `start`, with `-vvvv` (trace logging) in front of the subcommand
+	pub fn start_verbose(args: &[String], cwd: &Path) -> Result<Server, String> {
+		VERBOSE.store(true, std::sync::atomic::Ordering::SeqCst);
+		let r = Self::start_in(args, cwd, cwd);
+		VERBOSE.store(false, std::sync::atomic::Ordering::SeqCst);
+		r
+	}
 	/// like `start`, but the server's log goes to `log_dir` (for servers whose working directory is served)
 	pub fn start_in(args: &[String], cwd: &Path, log_dir: &Path) -> Result<Server, String> {
 		let bin = binary().ok_or("versatiles binary not built")?;
@@ -38,6 +47,9 @@ impl Server {
 			let stderr_file = log_dir.join(format!("server_{port}.stderr"));
 			let f = std::fs::File::create(&stderr_file).map_err(|e| e.to_string())?;
 			let mut c = Command::new(&bin);
+			if VERBOSE.load(std::sync::atomic::Ordering::SeqCst) {
+				c.arg("-vvvv");
+			}
 			c.arg("serve").arg("-i").arg("127.0.0.1").arg("-p").arg(port.to_string());
 			for a in args {
 				c.arg(a);
